@@ -216,6 +216,16 @@ class ConcRunner:
     def _run_cop(self, c):
         k = c["op"]
         try:
+            self.__run_cop(c)
+            self.cop_results.append((k, c.get("key"), "ok"))
+        except coop.Abort:
+            raise
+        except Exception as e:  # a scripted op may legitimately fail (e.g. delete twice): recorded, then swallowed
+            self.cop_results.append((k, c.get("key"), err_kind(e)))
+
+    def __run_cop(self, c):
+        k = c["op"]
+        if True:
             if k == "sch":
                 self.do_sched(c)
             elif k == "del":
@@ -228,10 +238,6 @@ class ConcRunner:
                 str(self.sched)
             elif k == "jobs":
                 _ = self.sched.jobs
-        except coop.Abort:
-            raise
-        except Exception:  # a scripted op may legitimately fail (e.g. delete twice)
-            pass
 
     def do_sched(self, o):
         call = CALLS[o["call"]]
@@ -364,6 +370,7 @@ class ConcRunner:
         self.sched = Scheduler(tzinfo=tz_of(scn.get("tz")), max_exec=scn.get("max_exec", 0),
                                n_threads=scn.get("n_threads", 1), logger=self.logger)
         self.inv_dues = []
+        self.cop_results = []
         self.reg_events = []
         self.reg_tracked = track_registry(self.sched, self.reg_events)
         # observe the batch each exec_jobs call selects (argument of the private __exec_jobs)
@@ -515,6 +522,7 @@ class ConcRunner:
         out["records"] = self.records
         out["invocations"] = self.invocations
         out["inv_dues"] = self.inv_dues
+        out["cop_results"] = list(self.cop_results)
         out["reschedulings"] = {}
         for (jid, _t, _v) in self.job_vals:
             if jid in self.key_of:
